@@ -282,6 +282,10 @@ def gen_abort_case(rng, seed, target, mfs, big_n, keys):
         if target in ('cache', 'fanout') and rng.random() < 0.3:
             body.insert(rng.randrange(len(body) + 1), rng.choice(({'op': 'clear'}, {'op': 'evict', 'tag': 't1'}, {'op': 'expire'},
                                                                     {'op': 'cull'}, {'op': 'touch', 'k': rng.choice(keys), 'expire': 7})))
+    if rng.random() < 0.12:
+        # the thread that owns the block forks a child in the middle of it (a worker started from inside the block); the
+        # child exits at once and never touches the cache
+        body.insert(rng.randint(0, len(body)), {'op': 'realfork'})
     blk = {'op': 'txn', 'body': body}
     if rng.random() < 0.8:
         blk['raise_at'] = rng.randint(0, len(body)); blk['raise_kind'] = rng.choice(('exc', 'base'))
